@@ -5,6 +5,7 @@ import (
 	"io"
 
 	"github.com/ipfs/go-cid"
+	"github.com/ipld/go-car/util"
 )
 
 type vStream struct {
@@ -82,4 +83,37 @@ func VerifH_C02_RootCarReaderNext() {
 		vCover("error-reported", true)
 		return
 	}
+}
+
+// VerifH_C01_RootBlocksStayIntact: blocks returned by the root-module reader keep their bytes:
+// after a first archive has been read to its end and a second archive is read (the reader's
+// buffers come from a pool and may be reused), the first archive's block is unchanged, and both
+// archives' blocks equal what the root-module writer framing put there.
+func VerifH_C01_RootBlocksStayIntact() {
+	root := vCidID("root")
+	hdr := vRootHeader(root)
+	mk := func(tag string) (cid.Cid, []byte, []byte) {
+		c := vCidID(tag)
+		data := vIdentityPayload(c)
+		var buf bytes.Buffer
+		buf.Write(hdr)
+		if err := util.LdWrite(&buf, c.Bytes(), data); err != nil {
+			panic("mk")
+		}
+		return c, data, buf.Bytes()
+	}
+	c1, d1, car1 := mk("b1")
+	c2, d2, car2 := mk("b2")
+	r1, err := NewCarReader(&vStream{data: car1})
+	vAssert("open1", err == nil)
+	blk1, err := r1.Next()
+	vAssert("next1", err == nil && blk1.Cid().Equals(c1) && vBytesEq(blk1.RawData(), d1))
+	_, err = r1.Next()
+	vAssert("eof1", err == io.EOF)
+	r2, err := NewCarReader(&vStream{data: car2})
+	vAssert("open2", err == nil)
+	blk2, err := r2.Next()
+	vAssert("next2", err == nil && blk2.Cid().Equals(c2) && vBytesEq(blk2.RawData(), d2))
+	vAssert("first-block-still-intact", vBytesEq(blk1.RawData(), d1))
+	vCover("two-archives-read", true)
 }
